@@ -7,7 +7,7 @@ package stackage
 // content equal those of SOME serial order consistent with program order.
 
 type vhOp struct {
-	code int // 0 Push, 1 Pop, 2 Insert, 3 Remove, 4 Replace, 5 Swap, 6 Reverse, 7 Reset
+	code int // 0 Push, 1 Pop, 2 Insert, 3 Remove, 4 Replace, 5 Swap, 6 Reverse, 7 Reset, 8 SetMutex (again)
 	a, b int
 	val  any
 }
@@ -17,7 +17,7 @@ type vhRes struct {
 	ok bool
 }
 
-var vhOpNames = []string{"Push", "Pop", "Insert", "Remove", "Replace", "Swap", "Reverse", "Reset"}
+var vhOpNames = []string{"Push", "Pop", "Insert", "Remove", "Replace", "Swap", "Reverse", "Reset", "SetMutex"}
 
 func vhApplyReal(s Stack, op vhOp) vhRes {
 	switch op.code {
@@ -39,6 +39,10 @@ func vhApplyReal(s Stack, op vhOp) vhRes {
 		s.Reverse()
 	case 7:
 		s.Reset()
+	case 8:
+		// enabling what is enabled already changes nothing - in particular
+		// not the identity of the lock others may be holding
+		s.SetMutex()
 	}
 	return vhRes{}
 }
@@ -128,10 +132,15 @@ func vhOrders(T, k int) [][]int {
 	return out
 }
 
-// p: n, T, k, nops (operation codes 0..nops-1), ucap (0 none), fifo (0/1)
+// p: n, T, k, nops (operation codes 0..nops-1; 9 = {Push, Pop, SetMutex}),
+// ucap (0 none), fifo (0/1), policy (1 = an accept-all push policy installed)
 func VH_C10(p []int) {
 	n, T, k, nops, ucap := p[0], p[1], p[2], p[3], p[4]
 	fifo := p[5] == 1
+	codes := []int{0, 1, 8}
+	if nops <= 8 {
+		codes = []int{0, 1, 2, 3, 4, 5, 6, 7}[:nops]
+	}
 	var s Stack
 	if ucap > 0 {
 		s = List(ucap)
@@ -148,13 +157,16 @@ func VH_C10(p []int) {
 	}
 	s.SetMutex()
 	cfg, _ := s.config()
+	if len(p) > 6 && p[6] == 1 {
+		cfg.ppf = func(...any) error { return nil }
+	}
 	// the operations: codes by fork, index arguments symbolic in a window
 	ops := make([][]vhOp, T)
 	label := ""
 	for t := 0; t < T; t++ {
 		ops[t] = make([]vhOp, k)
 		for j := 0; j < k; j++ {
-			op := vhOp{code: nondetChoice(nops), val: "t" + string(rune('0'+t)) + string(rune('a'+j))}
+			op := vhOp{code: codes[nondetChoice(len(codes))], val: "t" + string(rune('0'+t)) + string(rune('a'+j))}
 			switch op.code {
 			case 2, 3, 4:
 				op.a = nondetInt()
@@ -201,7 +213,7 @@ func VH_C10(p []int) {
 	moveOnly := true
 	for t := 0; t < T; t++ {
 		for j := 0; j < k; j++ {
-			if ops[t][j].code > 3 {
+			if c := ops[t][j].code; c > 3 && c != 8 {
 				moveOnly = false
 			}
 		}
